@@ -260,6 +260,9 @@ func c01group(c *engine.Ctx, gw string, setup func(env *zygo.Zlisp), cases []c01
 			break
 		}
 		c.Beat()
+		if i == 7 && c.Evals%5 == 0 {
+			c.AddSample(cs.entry + ": " + cs.text)
+		}
 		o := c01drive(env, cs.entry, cs.text)
 		c.Evals++
 		c.Count("runs", 1)
